@@ -4,6 +4,7 @@ import (
 	"encoding/json"
 	"errors"
 	"fmt"
+	"github.com/bytedance/gopkg/lang/mcache"
 	"io"
 	"math/rand"
 	"net"
@@ -167,6 +168,15 @@ func runWrCase(raw json.RawMessage, w *TraceWriter) {
 		panic(err)
 	}
 	w.Ev("reset", "fam", "wr", "fl", cs.Fl, "init", cs.Init, "cap", cs.Cap, "isnil", cs.IsNil, "failAt", cs.FailAt, "iseed", wrInitSeed)
+	total := 0
+	for _, op := range cs.Ops {
+		if op.N > 0 {
+			total += op.N
+		}
+	}
+	if total > 100<<20 { // a history that legitimately needs buffers beyond the pool double's safety net
+		defer mcache.SetGiantLimit(mcache.SetGiantLimit(1 << 31))
+	}
 	var wr bufiox.Writer
 	var sink *recSink
 	var target []byte
@@ -371,6 +381,18 @@ func genWrCases(c *Ctx) []json.RawMessage {
 		k++
 		add(WrCase{Fl: "io", Shuffle: int64(k), Ops: ops})
 	}
+	// a flush cycle that outgrows buffers of 64, 128 and 256 MiB, with regions handed out early and filled last
+	{
+		ops := []WrOp{{Op: "malloc", N: 100, Lazy: true}, {Op: "wb", N: 10}, {Op: "malloc", N: 4096, Lazy: true}}
+		for i := 0; i < 9; i++ {
+			ops = append(ops, WrOp{Op: "wb", N: 32 << 20})
+			if i == 4 {
+				ops = append(ops, WrOp{Op: "malloc", N: 33, Lazy: true})
+			}
+		}
+		k++
+		add(WrCase{Fl: "io", Shuffle: int64(k), Ops: ops})
+	}
 	rng := rand.New(rand.NewSource(c.Seed*104729 + 5))
 	nrand := c.Pick(1500, 30000)
 	for i := 0; i < nrand; i++ {
@@ -432,11 +454,23 @@ func genWrCases(c *Ctx) []json.RawMessage {
 }
 
 func checkC05(c *Ctx) {
-	c.rule = "MC: every behaviour of WriterImpl within the cfg bounds keeps the stitching invariants (windows tile, every region in its own window, regions contiguous in order) and the C05 contract. TRACE: one case = (writer flavour, initial target shape or failing sink write k, history of Malloc/WriteBinary/Flush with eager/lazy/re-filled regions); exhaustive histories <= 3 ops over a boundary-valued alphabet (+final Flush) and seeded random histories; sink bytes are projected onto per-region pattern runs and judged by TLC against WriterAbs; hook state is judged against WriterImpl. Sinks: plain io.Writers and sinks whose dynamic type also is a net.Conn offering WriteString / ReadFrom / WriteByte / Flush / Sync / Available / Len (every route recorded in arrival order)."
+	c.rule = "MC: every behaviour of WriterImpl within the cfg bounds keeps the stitching invariants (windows tile, every region in its own window, regions contiguous in order) and the C05 contract, and is a behaviour of the integer core for each tracked region (RefinesCore). APALACHE: the core's invariants (the tracked region lies in the stitch window of its own buffer, offsets are the running sum, WrittenLen = pending, sticky errors) are inductive for regions, buffers and histories of any size and length. TRACE: one case = (writer flavour, initial target shape or failing sink write k, history of Malloc/WriteBinary/Flush with eager/lazy/re-filled regions); exhaustive histories <= 3 ops over a boundary-valued alphabet (+final Flush) and seeded random histories; sink bytes are projected onto per-region pattern runs and judged by TLC against WriterAbs; hook state is judged against WriterImpl. Sinks: plain io.Writers and sinks whose dynamic type also is a net.Conn offering WriteString / ReadFrom / WriteByte / Flush / Sync / Available / Len (every route recorded in arrival order)."
 	if c.Thorough() {
 		c.MC("MC_BufWriter.tla", "MC_BufWriter_thorough.cfg", 12)
 	} else {
 		c.MC("MC_BufWriter.tla", "MC_BufWriter_quick.cfg", 8)
+	}
+	// unbounded sizes and histories: the integer core of the writer (Ind_BufWriter.tla; MC_BufWriter checks RefinesCore = every
+	// step of the detailed model is a step of the core, for each choice of the tracked region) keeps "the region lies in
+	// the stitch window of its own buffer", "offsets are the running sum", WrittenLen and sticky errors for regions,
+	// buffers and histories of ANY size and length (Apalache, inductive invariant)
+	c.Apalache("Ind_BufWriter.tla", "base: Init => IndInv", false, "--cinit=ConstInit", "--init=Init", "--next=Next", "--inv=IndInv", "--length=0")
+	c.Apalache("Ind_BufWriter.tla", "step: IndInv /\\ Next => IndInv'", false, "--cinit=ConstInit", "--init=IndInit", "--next=Next", "--inv=IndInv", "--length=1")
+	c.Apalache("Ind_BufWriter.tla", "negative control: growth that forgets where the parked buffer ended breaks the step", true, "--cinit=ConstInitNeg", "--init=IndInit", "--next=Next", "--inv=IndInv", "--length=1")
+	if c.Thorough() {
+		for _, pr := range []string{"ProbeNeverParked", "ProbeNeverFailed", "ProbeNeverTwoParks"} {
+			c.Apalache("Ind_BufWriter.tla", "non-vacuity probe "+pr, true, "--cinit=ConstInit", "--init=IndInit", "--next=Next", "--inv="+pr, "--length=0")
+		}
 	}
 	c.TraceCheck(famWr, genWrCases(c))
 	c.Assume("the recording sink and the per-region pattern recogniser (harness c05.go/pat.go) are correct; TLC evaluates the contract")
